@@ -10,7 +10,7 @@ VARIABLE st
 
 FlagSeq(i) == CASE i = 0 -> <<>> [] i = 1 -> <<45>> [] i = 2 -> <<48>> [] i = 3 -> <<43>> [] i = 4 -> <<32>> [] i = 5 -> <<35>>
                 [] i = 6 -> <<45, 48>> [] i = 7 -> <<43, 48>> [] i = 8 -> <<35, 32>> [] i = 9 -> <<45, 35>> [] i = 10 -> <<48, 35>>
-                [] i = 11 -> <<43, 45>> [] i = 12 -> <<43, 32>> [] i = 13 -> <<45, 43, 48, 35, 32>>
+                [] i = 11 -> <<43, 45>> [] i = 12 -> <<43, 32>> [] i = 13 -> <<45, 43, 48, 35, 32>> [] i = 14 -> <<32, 48>>
 RECURSIVE NumChars(_)
 NumChars(n) == IF n < 10 THEN <<48 + n>> ELSE Append(NumChars(n \div 10), 48 + Mod(n, 10))
 WidthSeq(w) == IF w = -1 THEN <<>> ELSE IF w = -2 THEN <<42>> ELSE NumChars(w)
